@@ -6,6 +6,7 @@ import L21.Model.Aff
 import L21.Driver.GdsIO
 import L21.Driver.LefRawIO
 import L21.Driver.RawProtoIO
+import L21.Driver.RawGdsIO
 /-
 Line-protocol operations: `<op> <sexpr>*` ↦ result line.
 -/
@@ -136,6 +137,8 @@ def dispatch (op : String) (args : List Sexp) : String :=
   | "gds.read" => opGdsRead args
   | "gds.c03" => opGdsRead (args.take 1)
   | "lefraw.import" => opLefRawImport args
+  | "rawgds.export" => opRawGdsExport args
+  | "gdsraw.import" => opGdsRawImport args
   | "rawproto.export" => opRawProtoExport args
   | "rawproto.import" => opRawProtoImport args
   | "tf.apply" => opTfApply args
